@@ -127,6 +127,11 @@ func (d *duplex) Write(b []byte) (int, error) {
 	}
 	if d.plain {
 		d.mu.Unlock()
+		if len(b) > 0 && b[0] == 0x15 && len(b) <= 8 {
+			// a TLS alert record written by crypto/tls when a handshake fails: TLS itself is abstracted in the model, the
+			// record is not part of the SMTP reply stream
+			return len(b), nil
+		}
 		d.log.write(b)
 		return len(b), nil
 	}
